@@ -140,10 +140,11 @@ def _block_singletons(
                 u, v = individuals_edges[i]
                 assert u == tskit.NULL or v == tskit.NULL
                 individuals_edges[i] = [e, max(u, v)]
-                individuals_position[i] = left
-                if individuals_block[i] == tskit.NULL:
-                    individuals_block[i] = num_blocks
-                    num_blocks += 1
+                if max(u, v) != tskit.NULL:  # both leaf edges present: open block
+                    individuals_position[i] = left
+                    if individuals_block[i] == tskit.NULL:
+                        individuals_block[i] = num_blocks
+                        num_blocks += 1
             a += 1
 
         right = sequence_length
@@ -157,7 +158,11 @@ def _block_singletons(
             m = indexes_mutation[d]
             c = mutations_node[m]
             i = nodes_individual[c]
-            if i != tskit.NULL and individuals_unphased[i]:
+            if (
+                i != tskit.NULL
+                and individuals_unphased[i]
+                and individuals_block[i] != tskit.NULL
+            ):  # only where both leaf edges of the individual are present
                 mutations_block[m] = individuals_block[i]
                 individuals_singletons[i] += 1.0
             d += 1
